@@ -145,6 +145,20 @@ func gen(seed uint64, tier, statsPath string) {
 			emit("mut:"+rule+":"+el, m)
 		}
 	}
+	// every rule at least `min` times, whatever the random choices above were
+	min := 3
+	if tier == "thorough" {
+		min = 10
+	}
+	for _, rule := range schema.Rules {
+		for tries := 0; stats["mut:"+rule] < min && tries < 400; tries++ {
+			b2 := schema.GenSemantic(r, fmt.Sprintf("gen.test/b%d", line))
+			if m, el, ok := schema.Mutate(r, b2, rule); ok {
+				stats["mut:"+rule]++
+				emit("mut:"+rule+":"+el, m)
+			}
+		}
+	}
 	if b, err := json.Marshal(stats); err == nil {
 		os.WriteFile(statsPath, b, 0o644)
 	}
@@ -274,7 +288,7 @@ func run() int {
 		}
 		j.dir = fmt.Sprintf("b%d", i)
 		rootPkg := j.order[0]
-		err, panicked, hung := generate(filepath.Join(src, rootPkg), filepath.Join(mod, j.dir, rootPkg), []string{src})
+		err, panicked, hung := generate(filepath.Join(src, rootPkg), filepath.Join(mod, goDst(j, rootPkg)), []string{src})
 		switch {
 		case hung:
 			j.viol = append(j.viol, "hang")
@@ -288,9 +302,9 @@ func run() int {
 			j.accepted = true
 			// the imported packages have to exist for the Go compiler
 			for _, dep := range j.order[1:] {
-				if e, p, h := generate(filepath.Join(src, dep), filepath.Join(mod, j.dir, dep), []string{src}); e != nil || p != "" || h {
+				if e, p, h := generate(filepath.Join(src, dep), filepath.Join(mod, goDst(j, dep)), []string{src}); e != nil || p != "" || h {
 					// a dependency the root does not import may be invalid on purpose: leave it out
-					os.RemoveAll(filepath.Join(mod, j.dir, dep))
+					os.RemoveAll(filepath.Join(mod, goDst(j, dep)))
 				}
 			}
 		}
@@ -335,6 +349,19 @@ func run() int {
 		fmt.Fprintln(out, ans)
 	}
 	return 0
+}
+
+var goPackageRe = regexp.MustCompile(`go_package\s*=\s*"gen\.test/(b[0-9]+/[A-Za-z0-9_]+)"`)
+
+// goDst returns the directory (relative to the module) the package's Go code belongs in: the path of
+// its go_package option, or <bundle>/<pkg> without one.
+func goDst(j *job, pkg string) string {
+	for _, text := range j.files[pkg] {
+		if m := goPackageRe.FindStringSubmatch(text); m != nil {
+			return filepath.FromSlash(m[1])
+		}
+	}
+	return filepath.Join(j.dir, pkg)
 }
 
 var buildErrRe = regexp.MustCompile(`^(?:\./)?(b\d+)/[^:]*:\d+(?::\d+)?: (.*)$`)
